@@ -343,6 +343,44 @@ Proof.
   apply orb_true_iff in A as [A | A]; [left | right]; now apply result_eqb_true.
 Qed.
 
+Lemma gpaths_local p : forall M e, ssub (gsupp p) M -> gpaths p (restrict e M) = gpaths p e.
+Proof.
+  induction p; intros M e H; cbn [gpaths gsupp] in *.
+  - reflexivity.
+  - now rewrite IHp.
+  - apply ssub_union_inv in H as [H1 H2]. apply ssub_union_inv in H2 as [H2 H3].
+    rewrite beval_local by assumption. now rewrite IHp1, IHp2.
+  - apply ssub_union_inv in H as [H1 H2]. now rewrite IHp1, IHp2.
+Qed.
+
+Lemma op_ok_arg_local asm req p e :
+  op_ok_arg asm req p (restrict e (op_supp req p)) = op_ok_arg asm req p e.
+Proof.
+  unfold op_ok_arg, op_supp.
+  rewrite gpaths_local by apply ssub_union_r.
+  apply forallb_pointwise. intros x. unfold op_outcome_ok.
+  rewrite (beval_local req) by apply ssub_union_l.
+  reflexivity.
+Qed.
+
+(** guard soundness for an argument-dependent guard: on every interface, every path that is
+    consistent with the assumption on the arguments and on which the requirement is false ends
+    with UnsupportedCapability / a failure report and transmits nothing *)
+Lemma guard_sound_op_arg asm req p :
+  checks_before_sends_op_arg asm req p = true ->
+  forall e path r sends, In (path, (r, sends)) (gpaths p e) ->
+    path_consistent asm path = true -> beval req e = false ->
+    (r = RRaise EUnsupportedCapability \/ r = RFalse) /\ sends = [].
+Proof.
+  intros H e path r sends Hin Hc Hr.
+  pose proof (forall_envs_sound _ _ (op_ok_arg_local asm req p) H e) as Hok.
+  unfold op_ok_arg in Hok. rewrite forallb_forall in Hok. specialize (Hok _ Hin).
+  cbn [fst snd] in Hok. rewrite Hc in Hok. cbn in Hok.
+  unfold op_outcome_ok in Hok. cbn [fst snd] in Hok. rewrite Hr in Hok. cbn in Hok.
+  apply andb_true_iff in Hok as [A B]. split; [|now apply is_nil_true].
+  apply orb_true_iff in A as [A | A]; [left | right]; now apply result_eqb_true.
+Qed.
+
 (** guard soundness over SEQUENCES of operations on one connector: whatever operations were called
     before and after, on every interface, an operation whose requirement is false ends with
     UnsupportedCapability or a failure report and transmits nothing *)
